@@ -38,6 +38,20 @@ def lchu_step(s, n, x, k):
                   LCHU(s, n, x, k + 1) == z3.If(s.name(s.kid(n, k)) == xs, s.at(s.kids(n), k), LCHU(s, n, x, k)))
 
 
+# ghosts: keyword totals.  KWS(n, k): keywords in the keywordSet children among the first k children of n;  KWL(elems, i): keywords in the first i
+# nodes of a list.  Both by one-level unfolding.
+_KWS = z3.Function("keywords_in_sets_upto", *_CS, smt.FieldArr, I, I, I)
+_KWL = z3.Function("keywords_in_listed_sets_upto", *_CS, smt.FieldArr, smt.ElemArr, I, I)
+
+
+def KWS(s, n, k):
+    return _KWS(*s.cs, s.arr("F:_name"), n, k)
+
+
+def KWL(s, elems, i):
+    return _KWL(*s.cs, s.arr("F:_name"), elems, i)
+
+
 def truthy_content(s, m):
     c = s.f("_content", m)
     return z3.And(Val.is_strv(c), z3.Length(Val.s(c)) > 0)
@@ -195,13 +209,18 @@ def install(w):
     con = Contract(EV + "_description_rule", params={"node": "Node"}, requires=base_req, ensures=de_ensures, allocates=True, result_ty="list:val", modular=False)
     out["_description_rule"] = (evaluate._description_rule, con)
     out["__gtc"] = gtc
-
-    # ---- data table: which of its descendants the five checks look at is part of the specification (first / last child by name)
+    from pyvc.task import MergeC
+    from pyvc.loops import NS, havoc_like
+    from pyvc.core import arr_sort
     from . import c09_queries as Q9
-    FCH = Q9.FCH
+    NT = "opt:Node"
 
     def ok(s, v):
         return z3.And(v != Val.none, truthy_content(s, Val.r(v)))
+
+
+    # ---- data table: which of its descendants the five checks look at is part of the specification (first / last child by name)
+    FCH = Q9.FCH
 
     def dt_terms(s, node):
         phys = FCH(s, node, names.PHYSICAL)
@@ -246,7 +265,9 @@ def install(w):
     def first_inv(var, parent_of, nm, keep=()):
         def inv(s0, s, v):
             n = parent_of(v)
-            return {"bound": v._k <= s0.nkids(n), "not-found-yet": v.V(var) == Val.none, "none-before": none_named_before(s0, n, nm, v._k, "fb")}
+            # the last clause ties the scan to the ghost: the first child with that name, if any, has not been passed
+            return {"bound": v._k <= s0.nkids(n), "not-found-yet": v.V(var) == Val.none, "none-before": none_named_before(s0, n, nm, v._k, "fb"),
+                    "first-not-passed": z3.Or(FCH(s0, n, nm) == Val.none, Q9.FCI(s0, n, nm) >= v._k)}
         return inv
 
     def dt_inv_phys_children(s0, s, v):
@@ -259,25 +280,159 @@ def install(w):
         P = Val.r(v.V("physical_node"))
         return {nm: lchu_step(s0, P, nm, v._k) for nm in (names.SIZE, names.AUTHENTICATION, names.RECORDDELIMITER, names.DATAFORMAT)}
 
-    NT = "opt:Node"
     vt = {"child": "Node", "physical_node": NT, "authentication_node": NT, "number_of_records_node": NT, "size_node": NT, "data_format_node": NT,
           "text_format_node": NT, "record_delimiter_node": NT}
     q = EV + "_datatable_rule"
     con = Contract(q, params={"node": "Node"}, requires=base_req, axioms=dt_axioms, ensures=dt_ensures, allocates=True, result_ty="list:val", modular=False,
-                   assumptions=("T-unfold(first_child_named, last_child_named)",))
+                   mod=lambda s0, r, **kw: z3.BoolVal(False), assumptions=("T-unfold(first_child_named, last_child_named)",))
     w.loop(q, 1, inv=dt_inv_any, var_types=vt)
     w.loop(q, 2, inv=first_inv("physical_node", lambda v: v.node, names.PHYSICAL), var_types=vt)
     w.loop(q, 3, inv=dt_inv_phys_children, axioms=dt_ax_phys_children, var_types=vt)
     w.loop(q, 4, inv=first_inv("text_format_node", lambda v: Val.r(v.V("data_format_node")), names.TEXTFORMAT), var_types=vt)
     def dt_inv_rd(s0, s, v):
         T = Val.r(v.V("text_format_node"))
-        return {"bound": v._k <= s0.nkids(T), "kept-so-far": v.V("record_delimiter_node") == v.V("old_rd"), "none-before": none_named_before(s0, T, names.RECORDDELIMITER, v._k, "fr")}
+        return {"bound": v._k <= s0.nkids(T), "kept-so-far": v.V("record_delimiter_node") == v.V("old_rd"), "none-before": none_named_before(s0, T, names.RECORDDELIMITER, v._k, "fr"),
+                "first-not-passed": z3.Or(FCH(s0, T, names.RECORDDELIMITER) == Val.none, Q9.FCI(s0, T, names.RECORDDELIMITER) >= v._k)}
     w.loop(q, 5, inv=dt_inv_rd, ghost={"old_rd": lambda s, v: v.V("record_delimiter_node")}, var_types=vt)
     w.loop(q, 6, inv=first_inv("number_of_records_node", lambda v: v.node, names.NUMBEROFRECORDS), var_types=vt)
+
+    # ---- dataset
+    # ghosts for the keyword total: over the list of keywordSet children (what the code folds over) and over the children themselves (what
+    # the specification says); the lemma fold_filter_lemma() relates them by induction over the child index
+    qd = EV + "_dataset_rule"
+    DS_LAST = {"abstract_node": names.ABSTRACT, "coverage_node": names.COVERAGE, "datatable_node": names.DATATABLE,
+               "intellectual_rights_node": names.INTELLECTUALRIGHTS, "methods_node": names.METHODS, "project_node": names.PROJECT}
+
+    def ds_conditions(s, node):
+        last = {loc: LCH(s, node, nm) for loc, nm in DS_LAST.items()}
+        a, cov, dt, ir, me, pj = (last[k] for k in ("abstract_node", "coverage_node", "datatable_node", "intellectual_rights_node", "methods_node", "project_node"))
+        text = GTC(s, Val.r(a))
+        has_text = z3.And(a != Val.none, z3.Length(text) > 0)
+        n_sets = Q9.CNT(s, node, names.KEYWORDSET, s.nkids(node))
+        return [(z3.And(has_text, strings.U_NWORDS(text) < 20), EW.DATASET_ABSTRACT_TOO_SHORT),
+                (z3.Not(has_text), EW.DATASET_ABSTRACT_MISSING),
+                (z3.Or(cov == Val.none, s.nkids(Val.r(cov)) == 0), EW.DATASET_COVERAGE_MISSING),
+                (dt == Val.none, EW.DATATABLE_MISSING),
+                (z3.Not(ok(s, ir)), EW.INTELLECTUAL_RIGHTS_MISSING),
+                (n_sets == 0, EW.KEYWORDS_MISSING),
+                (z3.And(n_sets > 0, KWS(s, node, s.nkids(node)) < 5), EW.KEYWORDS_INSUFFICIENT),
+                (me == Val.none, EW.DATASET_METHOD_STEPS_MISSING),
+                (pj == Val.none, EW.DATASET_PROJECT_MISSING)]
+
+    def ds_axioms(s, node):
+        E = z3.Const("ka_E", smt.ElemArr)
+        d = {"cnt0": Q9.CNT(s, node, names.KEYWORDSET, 0) == 0, "kws0": KWS(s, node, 0) == 0,
+             "kwl0": smt.FA([E], KWL(s, E, 0) == 0, patterns=[KWL(s, E, 0)])}
+        for loc, nm in DS_LAST.items():
+            d["lch-" + nm] = z3.And(LCHU(s, node, nm, 0) == Val.none, LCH(s, node, nm) == LCHU(s, node, nm, s.nkids(node)))
+        return d
+
+    def ds_ensures(s0, s, node, result):
+        return {"top:warnings": z3.And(Val.is_ref(result), warn_list(s, Val.r(result), node, ds_conditions(s0, node)))}
+
+    def ks_list(v):
+        x = v.raw("keywordset_nodes")
+        return x.ref if isinstance(x, PList) else x.t
+
+    def sets_are_nodes(s0, s, K):
+        j = z3.Int("sn_j")
+        return smt.FA([j], z3.Implies(z3.And(0 <= j, j < s.len(K)), z3.And(Val.is_ref(s.at(K, j)), s0.is_node(s.nat(K, j)))), patterns=[s.at(K, j)])
+
+    def ev_list(v):
+        x = v.raw("evaluation")
+        return x.ref if isinstance(x, PList) else x.t
+
+    def ds_inv1(s0, s, v):
+        n, k = v.node, v._k
+        K = ks_list(v)
+        E = ev_list(v)
+        d = {"bound": k <= s0.nkids(n), "sets-list": z3.And(K >= s0.top, K < s.top, kind(K) == KIND_LIST, s.len(K) >= 0),
+             "no-warning-yet": z3.And(E >= s0.top, E < s.top, kind(E) == KIND_LIST, s.len(E) == 0, E != K)}
+        d.update(Q9.filtered(s0, s, n, names.KEYWORDSET, K, k, "sets"))
+        d["sets-are-nodes"] = sets_are_nodes(s0, s, K)
+        for loc, nm in DS_LAST.items():
+            d["last:" + nm] = v.V(loc) == LCHU(s0, n, nm, k)
+        return d
+
+    def ds_ax1(s0, s, v):
+        d = {"cnt": Q9.cnt_step(s0, v.node, z3.StringVal(names.KEYWORDSET), v._k)}
+        for loc, nm in DS_LAST.items():
+            d["lchu:" + nm] = lchu_step(s0, v.node, nm, v._k)
+        return d
+
+    def ds_inv2(s0, s, v):
+        K = ks_list(v)
+        return {"bound": v._k <= s.len(K), "total-so-far": v.V("num_keywords") == Val.intv(KWL(s0, s.elems(K), v._k)), "sets-are-nodes": sets_are_nodes(s0, s, K),
+                "sets-list-kept": z3.And(s.len(K) == v.len_K, s.elems(K) == v.elems_K),
+                "warnings-kept": z3.And(s.len(ev_list(v)) == v.len_E, s.elems(ev_list(v)) == v.elems_E)}
+
+    def ds_ax2(s0, s, v):
+        K = ks_list(v)
+        e = s.elems(K)
+        ks = Val.r(e[v._k])
+        flt = Q9.filtered(s0, s, v.node, names.KEYWORDSET, K, s0.nkids(v.node), "f")
+        return {"kwl": z3.And(KWL(s0, e, 0) == 0, KWL(s0, e, v._k + 1) == KWL(s0, e, v._k) + Q9.CNT(s0, ks, names.KEYWORD, s0.nkids(ks))),
+                # instance of the lemma fold_filter_lemma() (proved by induction, see below)
+                "L-fold-filter": z3.Implies(z3.And(*flt.values()), KWL(s0, e, s.len(K)) == KWS(s0, v.node, s0.nkids(v.node)))}
+
+    vt_ds = {"child": "Node", "keywordset_node": "Node", "keyword_nodes": "list:Node", "num_keywords": "int", **{loc: NT for loc in DS_LAST}}
+    con_ds = Contract(qd, params={"node": "Node"}, requires=base_req, axioms=ds_axioms, ensures=ds_ensures, allocates=True, result_ty="list:val", modular=False,
+                   mod=lambda s0, r, **kw: z3.BoolVal(False),
+                   assumptions=("T-unfold(last_child_named, count_named, keyword folds)", "L-fold-filter: proved by induction (obligations C19/lemma:fold-filter/*)"))
+    w.loop(qd, 1, inv=ds_inv1, axioms=ds_ax1, var_types=vt_ds)
+    w.loop(qd, 2, inv=ds_inv2, axioms=ds_ax2, var_types=vt_ds,
+           ghost={"len_K": lambda s, v: s.len(ks_list(v)), "elems_K": lambda s, v: s.elems(ks_list(v)),
+                  "len_E": lambda s, v: s.len(ev_list(v)), "elems_E": lambda s, v: s.elems(ev_list(v))})
+    DS_AFTER = {"methods_node": names.METHODS, "project_node": names.PROJECT}
+
+    def ds_merge_inv(s0, s, ip):
+        fr = ip.frames[-1]
+        ev = fr.locals["evaluation"]
+        if isinstance(ev, PList) and ev.ref is None:
+            ip.c.promote(ev)
+        v = NS(ip, dict(fr.locals))
+        node = v.node
+        L = ev.ref if isinstance(ev, PList) else ev.t
+        items = ds_conditions(s0, node)
+        d = {"list": z3.And(L >= s0.top, L < s.top, kind(L) == KIND_LIST),
+             "some-keyword-set": Q9.CNT(s0, node, names.KEYWORDSET, s0.nkids(node)) > 0,
+             "keyword-total": v.V("num_keywords") == Val.intv(KWS(s0, node, s0.nkids(node)))}
+        d.update({k.replace("top:", "so-far:"): x for k, x in warn_parts(s, L, node, items[:5]).items()})
+        for loc, nm in DS_AFTER.items():
+            x = v.V(loc)
+            d["is:" + nm] = x == LCH(s0, node, nm)
+            d["typed:" + nm] = z3.Or(x == Val.none, z3.And(Val.is_ref(x), s0.is_node(Val.r(x))))
+        return d
+
+    def ds_merge_havoc(ip):
+        c = ip.c
+        fr = ip.frames[-1]
+        for loc in DS_AFTER:
+            fr.locals[loc] = havoc_like(ip, None, NT, loc)
+        fr.locals["num_keywords"] = havoc_like(ip, None, "int", "num_keywords")
+        for a in ("llen", "lelem"):
+            c.heap.set(a, c.fresh("mg_" + a, arr_sort(a)))
+        nt = c.fresh("top", I)
+        c.assume(nt >= c.heap.top)
+        c.heap.top = nt
+
+    def gtc_frame(s0, s, v):
+        n = z3.Int("gf_n")
+        return {"prove:children-structure-unchanged": cs_same(s0, s),
+                "gtc-frame": smt.FA([n], z3.Implies(s0.is_node(n), GTC(s, n) == GTC(s0, n)), patterns=[GTC(s, n)])}
+
+    def cnt_frame(s0, s, v):
+        n, k = z3.Ints("cf_n cf_k")
+        x = z3.String("cf_x")
+        return {"prove:children-structure-unchanged": cs_same(s0, s),
+                "cnt-frame": smt.FA([n, x, k], z3.Implies(s0.is_node(n), Q9.CNT(s, n, x, k) == Q9.CNT(s0, n, x, k)), patterns=[Q9.CNT(s, n, x, k)])}
+    w.call_lemmas[(qd, EV + "get_text_content")] = gtc_frame
+    w.call_lemmas[(qd, Q9.Q_FAC)] = cnt_frame
+    w.after_loop[(qd, 2)] = MergeC(ds_merge_inv, ds_merge_havoc)
+    out["_dataset_rule"] = (evaluate._dataset_rule, con_ds)
+
+
     # the paths through the six loops are joined before the five independent checks (keeps the number of paths additive)
-    from pyvc.task import MergeC
-    from pyvc.loops import NS, havoc_like
-    from pyvc.core import arr_sort
     DT_LOCALS = {"size_node": "size", "authentication_node": "auth", "number_of_records_node": "nrec", "record_delimiter_node": "rd"}
 
     def dt_merge_inv(s0, s, ip):
@@ -311,4 +466,37 @@ def install(w):
 
     w.after_loop[(q, 6)] = MergeC(dt_merge_inv, dt_merge_havoc)
     out["_datatable_rule"] = (evaluate._datatable_rule, con)
+    return out
+
+
+def fold_filter_lemma():
+    """L-fold-filter, by induction over the child index k:  if E holds the children of n named x in order (E[CNT(k)] = child k whenever child k
+    is named x), then  KWL(E, CNT(k)) = KWS(n, k)  for every k <= #children; with len(E) = CNT(#children) this is what _dataset_rule needs.
+    Base case and step are discharged by z3 from the one-level unfoldings at k (the definitions of the three ghosts); the induction
+    principle over the naturals is applied here, outside the solver.  Returns [(name, proved?, seconds)]."""
+    import time
+    from pyvc.core import Heap, SV
+    from . import c09_queries as Q9
+    from metapype.eml import names
+    s = SV(Heap())
+    n, k = z3.Ints("lm_n lm_k")
+    E = z3.Const("lm_E", smt.ElemArr)
+    x = z3.StringVal(names.KEYWORDSET)
+    match = s.name(s.kid(n, k)) == x
+    per_set = lambda m: Q9.CNT(s, m, names.KEYWORD, s.nkids(m))
+    defs = [Q9.CNT(s, n, x, 0) == 0, KWS(s, n, 0) == 0, KWL(s, E, 0) == 0,
+            Q9.CNT(s, n, x, k + 1) == Q9.CNT(s, n, x, k) + z3.If(match, 1, 0),
+            KWS(s, n, k + 1) == KWS(s, n, k) + z3.If(match, per_set(s.kid(n, k)), 0),
+            KWL(s, E, Q9.CNT(s, n, x, k) + 1) == KWL(s, E, Q9.CNT(s, n, x, k)) + per_set(Val.r(E[Q9.CNT(s, n, x, k)])),
+            z3.Implies(z3.And(0 <= k, k < s.nkids(n), match), E[Q9.CNT(s, n, x, k)] == s.at(s.kids(n), k))]
+    P = lambda kk: KWL(s, E, Q9.CNT(s, n, x, kk)) == KWS(s, n, kk)
+    out = []
+    for nm, hyps, goal in (("base", defs, P(0)), ("step", defs + [0 <= k, k < s.nkids(n), P(k)], P(k + 1))):
+        sol = z3.Solver()
+        sol.set("timeout", 10000)
+        sol.add(*hyps)
+        sol.add(z3.Not(goal))
+        t0 = time.time()
+        r = sol.check()
+        out.append((nm, r == z3.unsat, time.time() - t0))
     return out
